@@ -106,7 +106,9 @@ fn prepare_project(file_path: &str, output_dir: Option<&str>) -> CliResult<Prepa
     generator.set_needs_axum(needs_axum);
 
     for crate_name in &rust_crates {
-        generator.add_rust_crate(crate_name);
+        generator
+            .add_rust_crate(crate_name)
+            .map_err(|e| CliError::failure(format!("Error: {}", e)))?;
     }
 
     // Generate Rust project files
